@@ -719,3 +719,222 @@ func TestProbe_positions(t *testing.T) {
 		}
 	}
 }
+
+func TestProbe_predicates(t *testing.T) {
+	docs := []string{
+		`<r><a x="1" y="2"><b i="1"><g/>t</b><c/></a><d z="3"/><b i="5"/><a><b i="2"/><b w="1" i="3"/></a><a/></r>`,
+		`<r a="1"><r a="2"><r><b/></r></r>text<b/><a><a><b/></a></a></r>`,
+	}
+	bases := []string{"//a", "//b", "//*", "/r/*", "//r", "/r/a/b", "//node()"}
+	preds := []string{"b", "@x", "@i>1", "not(b)", "b and @x", "b or c", "*", "..", "ancestor::a", "following::b", "preceding::b", "following-sibling::*", "preceding-sibling::b", "descendant::b", "b[@i>1]", "count(b)>1", "self::a", "@i=2 or @i=3", "string-length(name())>0", "text()", "a/b", "b/@i", "not(@i) and not(*)", ".//b", "parent::a", "@*", "b|c", "contains(name(),'a')", "starts-with(name(), 'b')", "ancestor::*[@x]", "following::*[@w]", "*[@i]", "count(*)=0", "true()", "false()", "'x'", "''"}
+	bad := 0
+	for _, ds := range docs {
+		root := wdoc(ds)
+		nav := func(n pnode) *TNodeNavigator { return &TNodeNavigator{curr: n.n, root: root, attr: n.a} }
+		for _, base := range bases {
+			be := MustCompile(base)
+			for _, pr := range preds {
+				pe, err := Compile("boolean(" + pr + ")")
+				if err != nil {
+					t.Fatalf("%s: %v", pr, err)
+				}
+				want := map[pnode]bool{}
+				it := be.Select(nav(pnode{root, -1}))
+				for it.MoveNext() {
+					cur := it.Current().(*TNodeNavigator)
+					c := pnode{cur.curr, cur.attr}
+					if v, ok := pe.Evaluate(nav(c)).(bool); ok && v {
+						want[c] = true
+					}
+				}
+				fe, err := Compile(base + "[" + pr + "]")
+				if err != nil {
+					t.Fatalf("%s[%s]: %v", base, pr, err)
+				}
+				got := map[pnode]bool{}
+				func() {
+					defer func() {
+						if r := recover(); r != nil {
+							t.Errorf("%s[%s]: panic %v", base, pr, r)
+						}
+					}()
+					it2 := fe.Select(nav(pnode{root, -1}))
+					for k := 0; it2.MoveNext() && k < 5000; k++ {
+						cur := it2.Current().(*TNodeNavigator)
+						got[pnode{cur.curr, cur.attr}] = true
+					}
+				}()
+				ok := len(got) == len(want)
+				for w := range want {
+					if !got[w] {
+						ok = false
+					}
+				}
+				if !ok && bad < 30 {
+					bad++
+					t.Errorf("doc %q: %s[%s]: got %d nodes, want %d", ds, base, pr, len(got), len(want))
+				}
+			}
+		}
+	}
+}
+
+func TestProbe_union(t *testing.T) {
+	docs := []string{
+		`<r><a x="1" y="2"><b i="1"><g/>t</b><c/></a><d z="3"/><b i="5"/><a><b i="2"/><b w="1" i="3"/></a><a-1/><a/></r>`,
+		`<r a="1"><r a="2"><r><b/></r></r>text<b/><a><a><b/></a></a><!--c--></r>`,
+	}
+	paths := []string{"//a", "//b", "//*", "/r/*", "//r", "/r/a/b", "//node()", "//@*", "//text()", "/r/a[1]", "//b[@i>1]", "..", ".", "//a/..", "//b/ancestor::*", "//comment()", "/r", "/", "//a-1", "//@x", "//@i"}
+	bad := 0
+	for _, ds := range docs {
+		root := wdoc(ds)
+		nav := func(n pnode) *TNodeNavigator { return &TNodeNavigator{curr: n.n, root: root, attr: n.a} }
+		set := func(ex string, c pnode) (map[pnode]int, error) {
+			e, err := Compile(ex)
+			if err != nil {
+				return nil, err
+			}
+			out := map[pnode]int{}
+			it := e.Select(nav(c))
+			for k := 0; it.MoveNext() && k < 5000; k++ {
+				cur := it.Current().(*TNodeNavigator)
+				out[pnode{cur.curr, cur.attr}]++
+			}
+			return out, nil
+		}
+		for _, c := range []pnode{{root, -1}, {root.FirstChild, -1}, {root.FirstChild.FirstChild, -1}} {
+			for _, p1 := range paths {
+				for _, p2 := range paths {
+					a, _ := set(p1, c)
+					b, _ := set(p2, c)
+					u, err := set(p1+" | "+p2, c)
+					if err != nil {
+						t.Fatalf("%s | %s: %v", p1, p2, err)
+					}
+					ok := true
+					for k, n := range u {
+						if n != 1 || (a[k] == 0 && b[k] == 0) {
+							ok = false
+						}
+					}
+					for k := range a {
+						if u[k] == 0 {
+							ok = false
+						}
+					}
+					for k := range b {
+						if u[k] == 0 {
+							ok = false
+						}
+					}
+					if !ok && bad < 20 {
+						bad++
+						t.Errorf("doc %q ctx %s: %s | %s: union has %d nodes, operands %d and %d", ds, c.n.Data, p1, p2, len(u), len(a), len(b))
+					}
+				}
+			}
+		}
+	}
+}
+
+func TestProbe_context(t *testing.T) {
+	docs := []string{
+		`<r><a x="1" y="2"><b i="1"><g/>t</b><c/></a><d z="3"/><b i="5"/><a><b i="2"/><b w="1" i="3"/></a><a/></r>`,
+		`<r a="1"><r a="2"><r><b/></r></r>text<b/><a><a><b/></a></a><!--c--></r>`,
+	}
+	rels := []string{"b", "*", "..", ".", "@*", "a/b", "*/*", "../*", "descendant::b", "following::*", "preceding::*", "ancestor::*", "following-sibling::node()", "preceding-sibling::node()", "self::a", "b[@i>1]", "*[b]", "../b | b", "(b)", "b[true()]", ".//b", "../..", "a[1]", "b[last()]", "*[1]/*[1]", "text()", "node()", "ancestor-or-self::node()", "descendant-or-self::*", "a | b", "b/@i", "..//@i"}
+	abss := []string{"/r", "//b", "/r/a/b", "/", "//@*", "/r/*[2]", "//a[b]", "/r/a | //d", "//b/..", "count(//b)", "//b[1]", "string(/r/a/@x)", "/r/a = /r/d", "boolean(//g)"}
+	bad := 0
+	for _, ds := range docs {
+		root := wdoc(ds)
+		nav := func(n pnode) *TNodeNavigator { return &TNodeNavigator{curr: n.n, root: root, attr: n.a} }
+		addr := func(c pnode) string {
+			var parts []string
+			for m := c.n; m.Parent != nil; m = m.Parent {
+				k := 1
+				for s := m.PrevSibling; s != nil; s = s.PrevSibling {
+					k++
+				}
+				parts = append([]string{fmt.Sprintf("node()[%d]", k)}, parts...)
+			}
+			a := "/" + strings.Join(parts, "/")
+			if c.a != -1 {
+				if a != "/" {
+					a += "/"
+				}
+				a += "@" + c.n.Attr[c.a].Key
+			}
+			return a
+		}
+		set := func(ex string, c pnode) (map[pnode]int, error) {
+			e, err := Compile(ex)
+			if err != nil {
+				return nil, err
+			}
+			out := map[pnode]int{}
+			it := e.Select(nav(c))
+			for k := 0; it.MoveNext() && k < 5000; k++ {
+				cur := it.Current().(*TNodeNavigator)
+				out[pnode{cur.curr, cur.attr}]++
+			}
+			return out, nil
+		}
+		same := func(a, b map[pnode]int) bool {
+			if len(a) != len(b) {
+				return false
+			}
+			for k := range a {
+				if b[k] == 0 {
+					return false
+				}
+			}
+			return true
+		}
+		var ctxs []pnode
+		for _, x := range pAll(root) {
+			ctxs = append(ctxs, x)
+			for i := range x.n.Attr {
+				ctxs = append(ctxs, pnode{x.n, i})
+			}
+		}
+		for _, c := range ctxs {
+			for _, ab := range abss {
+				e := MustCompile(ab)
+				v1 := e.Evaluate(nav(c))
+				v2 := e.Evaluate(nav(pnode{root, -1}))
+				if _, isIt := v1.(*NodeIterator); isIt {
+					a, _ := set(ab, c)
+					b, _ := set(ab, pnode{root, -1})
+					if !same(a, b) && bad < 20 {
+						bad++
+						t.Errorf("doc %q: absolute %s from %s differs from the root (%d vs %d nodes)", ds, ab, addr(c), len(a), len(b))
+					}
+				} else if fmt.Sprint(v1) != fmt.Sprint(v2) && bad < 20 {
+					bad++
+					t.Errorf("doc %q: absolute %s from %s = %v, from the root %v", ds, ab, addr(c), v1, v2)
+				}
+			}
+			if c.n.Parent == nil && c.a == -1 {
+				continue
+			}
+			for _, rp := range rels {
+				a, err := set(rp, c)
+				if err != nil {
+					t.Fatalf("%s: %v", rp, err)
+				}
+				full := addr(c) + "/" + rp
+				if strings.HasPrefix(rp, "(") || strings.Contains(rp, " | ") {
+					continue // addr/p does not parse for these forms; covered by the simple forms
+				}
+				b, err := set(full, pnode{root, -1})
+				if err != nil {
+					t.Fatalf("%s: %v", full, err)
+				}
+				if !same(a, b) && bad < 20 {
+					bad++
+					t.Errorf("doc %q: %s at %s gives %d nodes, %s from the root gives %d", ds, rp, addr(c), len(a), full, len(b))
+				}
+			}
+		}
+	}
+}
